@@ -178,6 +178,37 @@ def run(P, tier="quick"):
                                "the sibling index look-ups %s use different port maps (%s): rows and columns of the same cell are "
                                "mapped inconsistently when the port map is not in ascending order" %
                                (names, ", ".join(sorted(maps))), v0.line))
+    # SORTED-MAP: the rows/columns of an abbreviated *measurement* matrix are in VNA port order whatever the order of the
+    # caller's port map (vnacal_new(3)); their look-ups (condition compares a vnaa_b_* dimension) must therefore go
+    # through a local array that the function sorts (qsort, or element swaps inside a loop), never through the caller's map
+    cn = Canon(fc)
+    sorted_arrays = set()
+    for c_ in fc.calls("qsort"):
+        a0 = c_.args()[0] if c_.args() else None
+        if a0 is not None:
+            for m_ in a0.walk():
+                if m_.k == "DeclRefExpr" and m_.refkind == "local":
+                    sorted_arrays.add(m_.refdecl)
+    local_arrays = {v.get("decl") for v in fc.vardecls() if v.d.get("_dims")}
+    nsm = 0
+    for gid, items in groups.items():
+        for (v, mp, idx, e) in items:
+            if e.k != "ConditionalOperator" or "vnaa_b_" not in cn.path(e.kids[0]):
+                continue
+            nsm += 1
+            refs = [m_ for m_ in e.walk() if m_.k == "DeclRefExpr" and m_.refname == mp]
+            decl = refs[0].refdecl if refs else None
+            key = "R31|%s|_vnacal_new_add_common|sorted-map:%s" % (FILE, v.get("name"))
+            if decl in local_arrays and decl in sorted_arrays:
+                R.ok(key, PROPS)
+            else:
+                R.violated(Finding("R31", PROPS, FILE, "_vnacal_new_add_common", "sorted-map:" + v.get("name"),
+                                   "%s = %s maps a row/column of the abbreviated measurement matrix through `%s`, which is not a "
+                                   "sorted local copy of the port map: the M matrix is in VNA port order even when the port map is "
+                                   "not ascending" % (v.get("name"), e.text()[:70], mp), v.line))
+    if nsm < 2:
+        raise AnalysisBroken("_vnacal_new_add_common: measurement-matrix port-map look-ups not found (4 confirmed by hand)")
+    R.counts["sorted_map_lookups"] = nsm
     # MAPPED-INDEX: inside a loop whose counter i has a mapped companion (full = cond ? map[i] - 1 : i), the arrays of
     # the full port grid (those subscripted by some mapped companion) are subscripted by the companion, never by raw i
     mapped = {}          # raw index decl -> [(mapped VarDecl, loop)]
